@@ -1,0 +1,56 @@
+//go:build verif
+
+// Package verifhook (build tag "verif"): instrumentation points whose
+// behaviour is supplied by the verification harness at run time.
+package verifhook
+
+import "sync"
+
+const Enabled = true
+
+var (
+	mu      sync.RWMutex
+	eventFn func(kind string, args ...string)
+	yieldFn func(point string)
+	faultFn func(point string, arg string) error
+)
+
+func SetEvent(f func(kind string, args ...string)) { mu.Lock(); eventFn = f; mu.Unlock() }
+func SetYield(f func(point string))                { mu.Lock(); yieldFn = f; mu.Unlock() }
+func SetFault(f func(point string, arg string) error) {
+	mu.Lock()
+	faultFn = f
+	mu.Unlock()
+}
+
+// Event reports that something observable happened (e.g. a processor ran).
+func Event(kind string, args ...string) {
+	mu.RLock()
+	f := eventFn
+	mu.RUnlock()
+	if f != nil {
+		f(kind, args...)
+	}
+}
+
+// Yield marks a point at which the harness may pause the calling goroutine
+// to force a particular interleaving.
+func Yield(point string) {
+	mu.RLock()
+	f := yieldFn
+	mu.RUnlock()
+	if f != nil {
+		f(point)
+	}
+}
+
+// Fault lets the harness inject a failure at a named step.
+func Fault(point string, arg string) error {
+	mu.RLock()
+	f := faultFn
+	mu.RUnlock()
+	if f != nil {
+		return f(point, arg)
+	}
+	return nil
+}
